@@ -18,7 +18,8 @@ RULE = (
     "0A varint(r) 0A ..., for all L in [0,2^21] and all r that change the first three bytes (r >= 6: the "
     "first row of a valid stream is an options row of at least 4 bytes); ground truth = construction mode. "
     "(b) Hypothesis: the same options + statements written by pyjelly delimited (options-only first frame, "
-    "leading empty frames, arbitrary cuts) and non-delimited, stream names tuned so the options row / first "
+    "leading empty frames, arbitrary cuts) and non-delimited (read from BytesIO and from non-seekable raw / buffered sources whose "
+    "first reads deliver 1 and 2 bytes), stream names tuned so the options row / first "
     "frame are 8..12, 126..130 bytes; both must parse (both integrations) to the input. "
     "non-trivial = header with 0x0A in >=2 positions or a multi-byte varint (a), first frame or options row "
     "of length 10 or >=128 (b); distinct by header bytes resp. case hash."
@@ -229,9 +230,18 @@ def check_e2e(case, acc):
         pass
     for integ in ("generic", "rdflib"):
         exp = want if integ == "generic" else [[list(T.norm(T.rdflib_canon(t))) for t in s] for s in case["statements"]]
-        for label, data in (("delimited", delim), ("nondelimited", single)):
+        for label, data, src in (("delimited", delim, None), ("nondelimited", single, None),
+                                 ("delimited", delim, "buffered"), ("delimited", delim, "raw"), ("nondelimited", single, "buffered")):
             try:
-                got = pyj.parse_flat(data, integ)
+                if src is None:
+                    got = pyj.parse_flat(data, integ)
+                else:
+                    # the first bytes may arrive in pieces: a non-seekable source whose first reads deliver 1 and 2 bytes
+                    from vlib import iosim
+
+                    raw = iosim.DribbleRaw(data, [1, 2, 4096])
+                    got = pyj.parse_flat(None, integ, source=io.BufferedReader(raw) if src == "buffered" else raw)
+                    label = f"{label}-{src}-source"
             except Exception as exc:  # noqa: BLE001
                 return Violation(f"C08:e2e-{label}-rejected", f"{integ} {label} output failed to parse: "
                                  f"{type(exc).__name__}: {exc}; first bytes {data[:3].hex()}", case)
